@@ -2,10 +2,23 @@ package main
 
 import (
 	"bytes"
+	"fmt"
+	"io"
+	"math"
+	"regexp"
+	"strconv"
 
 	"github.com/tobgu/qframe"
 	"github.com/tobgu/qframe/config/csv"
+	"github.com/tobgu/qframe/config/newqf"
 )
+
+func intsOrEmpty(a []int) []int {
+	if a == nil {
+		return []int{}
+	}
+	return a
+}
 
 func bytesBS(b []byte) BS {
 	r := make(BS, len(b))
@@ -32,7 +45,7 @@ func (x *Exec) dispatchIO(st *Step, ev Ev) {
 			}
 			if st.Csv.WriteCols != nil {
 				opts = append(opts, csv.Columns(strList(st.Csv.WriteCols)))
-				wcols = st.Csv.WriteCols
+				wcols = bsOrEmpty(st.Csv.WriteCols)
 			}
 		}
 		err := qf.ToCSV(&buf, opts...)
@@ -55,6 +68,10 @@ func (x *Exec) dispatchIO(st *Step, ev Ev) {
 		ev["err"] = 0
 		ev["bytes"] = toBS(s)
 		ev["txt"] = txtOf(qf)
+	case "ReadCSV":
+		x.readCSV(st, ev)
+	case "ReadJSON":
+		x.readJSON(st, ev)
 	default:
 		x.dispatchIO2(st, ev)
 	}
@@ -75,4 +92,275 @@ func txtOf(qf qframe.QFrame) [][]BS {
 		r = append(r, col)
 	}
 	return r
+}
+
+// ---------------------------------------------------------------- readers with a prescribed fragmentation
+
+// chunkReader delivers the document in reads of the given sizes (cycled; capped by len(p)), and
+// reports io.EOF either together with the last bytes or on the following call.
+type chunkReader struct {
+	data    []byte
+	pos     int
+	sizes   []int
+	k       int
+	eofWith bool
+	fault   *FaultPos // optional: fail at byte offset fault.At
+	fired   bool
+}
+
+var errInjected = fmt.Errorf("injected I/O fault")
+
+func (r *chunkReader) Read(p []byte) (int, error) {
+	if len(p) == 0 {
+		return 0, nil
+	}
+	n := len(p)
+	if len(r.sizes) > 0 {
+		if s := r.sizes[r.k%len(r.sizes)]; s > 0 && s < n {
+			n = s
+		}
+		r.k++
+	}
+	limit := len(r.data)
+	if r.fault != nil && r.fault.At < limit {
+		limit = r.fault.At
+	}
+	if r.pos+n > limit {
+		n = limit - r.pos
+	}
+	if r.fault != nil && r.pos >= limit && limit == r.fault.At {
+		r.fired = true
+		return 0, errInjected
+	}
+	if n <= 0 {
+		return 0, io.EOF
+	}
+	copy(p, r.data[r.pos:r.pos+n])
+	r.pos += n
+	if r.fault != nil && r.pos == r.fault.At && r.fault.With {
+		r.fired = true
+		return n, errInjected
+	}
+	if r.pos == len(r.data) && r.eofWith && r.fault == nil {
+		return n, io.EOF
+	}
+	return n, nil
+}
+
+// splitFields: the harness' own permissive RFC 4180 splitter. It is used ONLY to enumerate the
+// field texts for which the strconv reference verdicts are logged (DESIGN 3.2); what the document
+// denotes is decided by Csv.tla.
+func splitFields(doc []byte, delim byte, keepCR bool, out map[string]bool) {
+	fld := []byte{}
+	inQ := false
+	flush := func() { out[string(fld)] = true; fld = fld[:0] }
+	for i := 0; i < len(doc); i++ {
+		c := doc[i]
+		if inQ {
+			if c == '"' {
+				if i+1 < len(doc) && doc[i+1] == '"' {
+					fld = append(fld, '"')
+					i++
+				} else {
+					inQ = false
+				}
+			} else if c == '\r' && i+1 < len(doc) && doc[i+1] == '\n' && !keepCR {
+				// dropped
+			} else {
+				fld = append(fld, c)
+			}
+			continue
+		}
+		switch {
+		case c == '"' && len(fld) == 0:
+			inQ = true
+		case c == delim:
+			flush()
+		case c == '\n':
+			if n := len(fld); n > 0 && fld[n-1] == '\r' {
+				fld = fld[:n-1]
+			}
+			flush()
+		default:
+			fld = append(fld, c)
+		}
+	}
+	if n := len(fld); n > 0 && fld[n-1] == '\r' {
+		fld = fld[:n-1]
+	}
+	flush()
+}
+
+func parseTable(doc []byte, delim byte) [][]interface{} {
+	set := map[string]bool{}
+	splitFields(doc, delim, true, set)
+	splitFields(doc, delim, false, set)
+	keys := make([]string, 0, len(set))
+	for k := range set {
+		keys = append(keys, k)
+	}
+	sortStrings(keys)
+	rows := [][]interface{}{}
+	for _, k := range keys {
+		ic, fc, bc := Cell{1}, Cell{1}, Cell{1}
+		if v, err := strconv.Atoi(k); err == nil {
+			ic = encInt(v)
+		}
+		if v, err := strconv.ParseFloat(k, 64); err == nil {
+			if math.IsNaN(v) {
+				fc = Cell{5}
+			} else {
+				fc = encFloat(v)
+			}
+		}
+		if v, err := strconv.ParseBool(k); err == nil {
+			bc = encBool(v)
+		}
+		rows = append(rows, []interface{}{toBS(k), ic, fc, bc})
+	}
+	return rows
+}
+
+func (c *CsvConf) readOpts() []csv.ConfigFunc {
+	opts := []csv.ConfigFunc{csv.EmptyNull(c.EmptyNull), csv.IgnoreEmptyLines(c.IgnoreEmpty)}
+	if c.Delim != 0 {
+		opts = append(opts, csv.Delimiter(byte(c.Delim)))
+	}
+	if c.HasTypes {
+		m := map[string]string{}
+		for _, t := range c.Types {
+			m[t.Name.String()] = t.Typ
+		}
+		opts = append(opts, csv.Types(m))
+	}
+	if c.HasEnumVals {
+		m := map[string][]string{}
+		for _, e := range c.EnumVals {
+			m[e.Name.String()] = strList(e.Vals)
+		}
+		opts = append(opts, csv.EnumValues(m))
+	}
+	if c.RowCountHint != 0 {
+		opts = append(opts, csv.RowCountHint(c.RowCountHint))
+	}
+	if c.Headers != nil {
+		opts = append(opts, csv.Headers(strList(c.Headers)))
+	}
+	if c.RenameDup {
+		opts = append(opts, csv.RenameDuplicateColumns(true))
+	}
+	if c.MissingAlias != nil {
+		opts = append(opts, csv.MissingColumnNameAlias(c.MissingAlias.String()))
+	}
+	return opts
+}
+
+func (c *CsvConf) tla() Ev {
+	delim := c.Delim
+	if delim == 0 {
+		delim = ','
+	}
+	types := []Ev{}
+	for _, t := range c.Types {
+		types = append(types, Ev{"name": t.Name, "typ": t.Typ})
+	}
+	return Ev{"emptynull": b2i(c.EmptyNull), "ignoreempty": b2i(c.IgnoreEmpty), "delim": delim, "types": types,
+		"enumvals": enumsTla(c.EnumVals), "headers": bsOrEmpty(c.Headers), "renamedup": b2i(c.RenameDup), "alias": bsOr(c.MissingAlias)}
+}
+
+var numTok = regexp.MustCompile(`-?[0-9][0-9eE+\-.]*`)
+
+func (x *Exec) readCSV(st *Step, ev Ev) {
+	conf := st.Csv
+	if conf == nil {
+		conf = &CsvConf{}
+	}
+	doc := []byte(st.Doc.String())
+	rt := -1
+	if st.Other > 0 { // document = what ToCSV writes for frame Other-1 (round trip, C13)
+		rt = st.Other - 1
+		var buf bytes.Buffer
+		var wopts []csv.ToConfigFunc
+		if conf.NoHeaderWrite {
+			wopts = append(wopts, csv.Header(false))
+		}
+		if err := x.frame(rt).ToCSV(&buf, wopts...); err != nil {
+			panic("round trip: ToCSV failed: " + err.Error())
+		}
+		doc = buf.Bytes()
+	}
+	delim := byte(',')
+	if conf.Delim != 0 {
+		delim = byte(conf.Delim)
+	}
+	rd := &chunkReader{data: doc, sizes: st.Reads, eofWith: conf.EOFWithData, fault: st.Fault}
+	ev["a"] = Ev{"doc": bytesBS(doc), "conf": conf.tla(), "parse": parseTable(doc, delim), "rt": rt, "reads": intsOrEmpty(st.Reads)}
+	qf := qframe.ReadCSV(rd, conf.readOpts()...)
+	ev["fired"] = b2i(rd.fired)
+	x.result(ev, qf)
+}
+
+func (x *Exec) readJSON(st *Step, ev Ev) {
+	doc := []byte(st.Doc.String())
+	rt := -1
+	conv := [][]Cell{}
+	var fns []newqf.ConfigFunc
+	order, enums := []BS{}, []Ev{}
+	hasorder, hasenums := 0, 0
+	if st.Other > 0 {
+		rt = st.Other - 1
+		src := x.frame(rt)
+		var buf bytes.Buffer
+		if err := src.ToJSON(&buf); err != nil {
+			panic("round trip: ToJSON failed: " + err.Error())
+		}
+		doc = buf.Bytes()
+		names := src.ColumnNames()
+		fns = append(fns, newqf.ColumnOrder(names...))
+		hasorder, order = 1, bsList(names)
+		em := map[string][]string{}
+		for _, n := range names {
+			switch colType(src, n) {
+			case "enum":
+				em[n] = nil
+				enums = append(enums, Ev{"name": toBS(n), "vals": []BS{}})
+			case "int":
+				conv = append(conv, convTable(colVals(src, n))...)
+			}
+		}
+		if len(em) > 0 {
+			fns = append(fns, newqf.Enums(em))
+			hasenums = 1
+		}
+	} else {
+		if st.HasOrder {
+			fns = append(fns, newqf.ColumnOrder(strList(st.ColOrder)...))
+			hasorder, order = 1, bsOrEmpty(st.ColOrder)
+		}
+		if st.HasEnums {
+			m := map[string][]string{}
+			for _, e := range st.Enums {
+				m[e.Name.String()] = strList(e.Vals)
+			}
+			fns = append(fns, newqf.Enums(m))
+			hasenums, enums = 1, enumsTla(st.Enums)
+		}
+	}
+	fparse := [][]Cell{}
+	seen := map[string]bool{}
+	for _, tok := range numTok.FindAll(doc, -1) {
+		s := string(tok)
+		if seen[s] {
+			continue
+		}
+		seen[s] = true
+		if v, err := strconv.ParseFloat(s, 64); err == nil {
+			fparse = append(fparse, []Cell{encStr(s), encFloat(v)})
+		}
+	}
+	rd := &chunkReader{data: doc, sizes: st.Reads, fault: st.Fault}
+	ev["a"] = Ev{"doc": bytesBS(doc), "conf": Ev{"hasorder": hasorder, "order": order, "hasenums": hasenums, "enums": enums}, "fparse": fparse, "rt": rt, "conv": conv}
+	qf := qframe.ReadJSON(rd, fns...)
+	ev["fired"] = b2i(rd.fired)
+	x.result(ev, qf)
 }
